@@ -28,6 +28,39 @@ def _unit():
     return ("adt", 0, ())
 
 
+def _rust_str(s):
+    """Decode the rendering of a &str constant ("..." with Rust escapes); None if it is not one."""
+    if s is None or len(s) < 2 or s[0] != '"' or s[-1] != '"':
+        return None
+    s = s[1:-1]
+    out = []
+    i = 0
+    simple = {"n": "\n", "r": "\r", "t": "\t", "0": "\0", "\\": "\\", '"': '"', "'": "'"}
+    while i < len(s):
+        ch = s[i]
+        if ch != "\\":
+            out.append(ch)
+            i += 1
+            continue
+        i += 1
+        if i >= len(s):
+            return None
+        e = s[i]
+        i += 1
+        if e in simple:
+            out.append(simple[e])
+        elif e == "x":
+            out.append(chr(int(s[i:i + 2], 16)))
+            i += 2
+        elif e == "u":
+            j = s.index("}", i)
+            out.append(chr(int(s[i + 1:j], 16)))
+            i = j + 1
+        else:
+            return None
+    return "".join(out)
+
+
 def some(v):
     return ("adt", 1, (v,))
 
@@ -110,7 +143,7 @@ class PE:
     def __init__(self, body, call_model=None, max_states=200000, eq_ok=None, inline=None, crate=None):
         # inline: set of local callee def paths to evaluate with known arguments (needs crate)
         self.inline = inline or set()
-        self.crate = crate
+        self.crate = crate if crate is not None else getattr(body, "crate", None)
         self.body = body
         self.call_model = call_model
         self.max_states = max_states
@@ -118,6 +151,10 @@ class PE:
         self.eq_ok = eq_ok
         # optional observer: visit_hook(bb, env, first) -> "stop" to cut the exploration at this state
         self.visit_hook = None
+        self.alias_mut_reborrow = True
+        # evaluate closure bodies (Option::map, Ordering::then_with ...) with the same call model; only for models that
+        # identify call sites by (body, block), never by block number alone
+        self.model_in_closures = False
 
     # ------------------------------------------------------------ env access
     def read_place(self, env, place):
@@ -250,6 +287,15 @@ class PE:
                 return ("i", o["int"])
             if ty == "()":
                 return _unit()
+            if o.get("fn"):
+                return ("fn", o["fn"])
+            if ty in ("&str", "&'static str") and isinstance(o.get("s"), str):
+                t = o["s"]
+                if t.startswith("const "):
+                    t = t[6:]
+                v = _rust_str(t)
+                if v is not None:
+                    return ("s", v)
             return UNK
         return UNK
 
@@ -266,8 +312,14 @@ class PE:
                 if v is not None and v[0] == "ref":
                     return ("ref", v[1], tuple(list(v[2]) + list(p["p"][1:])))
                 if v is not None and v[0] == "rv":
+                    if rv.get("mutbl") and self.alias_mut_reborrow:
+                        # `&mut *p` / `&mut (*p).f` of a seeded pointee: a real alias of the slot the pointee lives
+                        # in, so that writes through the reborrow (an inlined `&mut self` helper) are seen through p
+                        return ("ref", p["l"], tuple(p["p"]))
                     inner = self._read({-1: v[1]}, -1, list(p["p"][1:]))
                     return ("rv", inner) if inner is not None else UNK
+                if v is not None and v[0] == "s" and len(p["p"]) == 1:
+                    return v          # `&*s` of a string constant is the same string
                 return UNK
             return ("ref", p["l"], tuple(p["p"]))
         if k == "cast":
@@ -320,6 +372,8 @@ class PE:
                 return ("adt", rv["variant"], vals)
             if rv["agg"] == "tuple":
                 return ("adt", 0, vals)
+            if rv["agg"] == "closure" and rv.get("closure"):
+                return ("clo", rv["closure"], vals)
             return UNK
         return UNK
 
@@ -460,6 +514,65 @@ class PE:
                     if v is not None and v[0] != "ref":
                         return v
             return UNK
+        if n.endswith("char::methods::<impl char>::from_u32") or n.endswith("char::from_u32") or \
+                n.endswith("<impl char>::from_u32"):
+            v = a(0)
+            if v is not None and v[0] == "i":
+                ok_scalar = 0 <= v[1] <= 0x10FFFF and not (0xD800 <= v[1] <= 0xDFFF)
+                return ("adt", 1, (("i", v[1]),)) if ok_scalar else ("adt", 0, ())
+            return UNK
+        # ---- strings held as ("s", text): String and &str alike (ASCII text only for byte-indexed operations)
+        v0 = a(0) if argvals else None
+        if v0 is not None and v0[0] == "s":
+            t0 = v0[1]
+            tail0 = n.rsplit("::", 1)[-1]
+            is_str_fn = "<impl str>::" in n or n.startswith("std::string::String::") or "alloc::string::String::" in n
+            ident = ("to_string", "to_owned", "as_str", "clone", "deref", "as_ref", "borrow", "into", "from",
+                     "as_mut_str", "into_boxed_str", "as_bytes") 
+            if tail0 in ident and (is_str_fn or cal in ("std::string::ToString::to_string", "std::borrow::ToOwned::to_owned",
+                                                        "std::clone::Clone::clone", "std::ops::Deref::deref",
+                                                        "std::convert::AsRef::as_ref", "std::borrow::Borrow::borrow",
+                                                        "std::convert::Into::into", "std::convert::From::from")):
+                if tail0 != "as_bytes" and c.dest.get("ty", "").replace("&", "").replace("'static ", "").strip() in (
+                        "str", "std::string::String"):
+                    return v0
+            if is_str_fn:
+                pat = a(1) if len(argvals) > 1 else None
+                ptxt = None
+                if pat is not None and pat[0] == "s":
+                    ptxt = pat[1]
+                elif pat is not None and pat[0] == "i" and len(c.args) > 1 and c.args[1].get("ty") == "char" or \
+                        (pat is not None and pat[0] == "i" and "char" in " ".join(c.gargs or [])):
+                    try:
+                        ptxt = chr(pat[1])
+                    except (ValueError, OverflowError):
+                        ptxt = None
+                if tail0 == "is_empty":
+                    return ("b", t0 == "")
+                if tail0 == "len" and all(ord(ch) < 128 for ch in t0):
+                    return ("i", len(t0))
+                if ptxt is not None:
+                    if tail0 == "starts_with":
+                        return ("b", t0.startswith(ptxt))
+                    if tail0 == "ends_with":
+                        return ("b", t0.endswith(ptxt))
+                    if tail0 == "strip_prefix":
+                        return ("adt", 1, (("s", t0[len(ptxt):]),)) if t0.startswith(ptxt) else ("adt", 0, ())
+                    if tail0 == "strip_suffix":
+                        return ("adt", 1, (("s", t0[:len(t0) - len(ptxt)]),)) if t0.endswith(ptxt) and ptxt else ("adt", 0, ())
+                    if tail0 == "contains":
+                        return ("b", ptxt in t0)
+            if cal in ("std::ops::Index::index",) and all(ord(ch) < 128 for ch in t0) and len(argvals) > 1:
+                rng = a(1)
+                gar = " ".join(c.gargs or []) + " " + full
+                if rng is not None and rng[0] == "adt" and all(x is not None and x[0] == "i" for x in rng[2]):
+                    xs = [x[1] for x in rng[2]]
+                    if "RangeFrom" in gar and len(xs) == 1 and 0 <= xs[0] <= len(t0):
+                        return ("s", t0[xs[0]:])
+                    if "RangeTo<" in gar and len(xs) == 1 and 0 <= xs[0] <= len(t0):
+                        return ("s", t0[:xs[0]])
+                    if "ops::Range<" in gar and len(xs) == 2 and 0 <= xs[0] <= xs[1] <= len(t0):
+                        return ("s", t0[xs[0]:xs[1]])
         if cal in ("std::convert::From::from", "std::convert::Into::into"):
             v = a(0)
             dty = c.dest.get("ty", "")
@@ -607,22 +720,64 @@ class PE:
                     if sgn != 0:
                         return v
                     return w if (w is not None and w[0] == "adt") else UNK
+                if tail == "then_with":
+                    if sgn != 0:
+                        return v
+                    return self._apply(env, argvals[1] if len(argvals) > 1 else None, ())
             return UNK
-        if n.endswith("Result::<T, E>::map_err"):
+        is_res = n.startswith("std::result::Result::<") or n.startswith("core::result::Result::<")
+        is_opt = n.startswith("std::option::Option::<") or n.startswith("core::option::Option::<")
+        if is_res:
             v = a(0)
-            if v is not None and v[0] == "adt":
-                return v if v[1] == 0 else ("adt", 1, (UNK,))
-            return UNK
-        if n.startswith("std::option::Option::<") or n.startswith("core::option::Option::<"):
-            v = a(0)
-            if v is None or v[0] != "adt":
+            if v is None or v[0] != "adt" or v[1] not in (0, 1):
                 return UNK
+            f = argvals[1] if len(argvals) > 1 else None
+            if tail == "map_err":
+                if v[1] == 0:
+                    return v
+                return ("adt", 1, (self._apply(env, f, (v[2][0] if v[2] else UNK,)),))
+            if tail == "map":
+                if v[1] == 1:
+                    return v
+                return ("adt", 0, (self._apply(env, f, (v[2][0] if v[2] else UNK,)),))
+            if tail == "and_then":
+                if v[1] == 1:
+                    return v
+                return self._apply(env, f, (v[2][0] if v[2] else UNK,))
+            if tail == "ok":
+                return ("adt", 1, (v[2][0] if v[2] else UNK,)) if v[1] == 0 else ("adt", 0, ())
+            if tail == "is_ok":
+                return ("b", v[1] == 0)
+            if tail == "is_err":
+                return ("b", v[1] == 1)
+            if tail in ("unwrap", "expect") and v[1] == 0:
+                return v[2][0] if v[2] else UNK
+            return UNK
+        if is_opt:
+            v = a(0)
+            if v is None or v[0] != "adt" or v[1] not in (0, 1):
+                return UNK
+            f = argvals[1] if len(argvals) > 1 else None
             if tail == "is_some":
                 return ("b", v[1] == 1)
             if tail == "is_none":
                 return ("b", v[1] == 0)
             if tail in ("unwrap", "expect") and v[1] == 1:
                 return v[2][0]
+            if tail == "map":
+                if v[1] == 0:
+                    return v
+                return ("adt", 1, (self._apply(env, f, (v[2][0] if v[2] else UNK,)),))
+            if tail == "and_then":
+                if v[1] == 0:
+                    return v
+                return self._apply(env, f, (v[2][0] if v[2] else UNK,))
+            if tail == "ok_or":
+                return ("adt", 0, (v[2][0],)) if v[1] == 1 else ("adt", 1, (a(1),))
+            if tail == "ok_or_else":
+                return ("adt", 0, (v[2][0],)) if v[1] == 1 else ("adt", 1, (self._apply(env, f, ()),))
+            if tail == "unwrap_or":
+                return v[2][0] if v[1] == 1 else a(1)
             return UNK
         if tail == "new" and "RangeInclusive" in n:
             return ("adt", 0, (a(0), a(1)))
@@ -634,6 +789,65 @@ class PE:
             if lo is None or hi is None or x[0] not in ("i", "f"):
                 return UNK
             return ("b", lo[1] <= x[1] <= hi[1])
+        return UNK
+
+    def _apply(self, env, f, args):
+        """Result of calling the function value f (a variant constructor, or a closure / local function whose body is
+        evaluated on its own with no call model) on args; UNK when that is not determined."""
+        if f is None or self.crate is None:
+            return UNK
+        f = f[1] if f[0] == "rv" else f
+        if f is None:
+            return UNK
+        if f[0] == "fn":
+            path = f[1]
+            if "::" in path:
+                owner, vname = path.rsplit("::", 1)
+                adt = self.crate.adts.get(owner)
+                if adt:
+                    for i, vv in enumerate(adt["variants"]):
+                        if vv["name"] == vname and len(vv["fields"]) == len(args):
+                            return ("adt", i, tuple(args))
+            if path in ("std::option::Option::Some", "core::option::Option::Some") and len(args) == 1:
+                return ("adt", 1, tuple(args))
+            if path in ("std::result::Result::Ok", "core::result::Result::Ok") and len(args) == 1:
+                return ("adt", 0, tuple(args))
+            if path in ("std::result::Result::Err", "core::result::Result::Err") and len(args) == 1:
+                return ("adt", 1, tuple(args))
+            return UNK
+        if f[0] != "clo":
+            return UNK
+        cb = self.crate.bodies.get(f[1]) or getattr(self.crate, "raw_bodies", {}).get(f[1])
+        if cb is None or getattr(self, "_apply_depth", 0) > 3:
+            return UNK
+        caps = []
+        for cv in f[2]:
+            if cv is not None and cv[0] == "ref":
+                inner = self._read(env, cv[1], list(cv[2]))
+                cv = ("rv", inner) if inner is not None else None
+            caps.append(cv)
+        cenv = ("adt", 0, tuple(caps))
+        env2 = {1: ("rv", cenv) if cb.local_ty(1).startswith("&") else cenv}
+        for i, v in enumerate(args):
+            if v is not None:
+                if v[0] == "ref":
+                    inner = self._read(env, v[1], list(v[2]))
+                    v = ("rv", inner) if inner is not None else None
+                if v is not None:
+                    env2[i + 2] = v
+        sub = PE(cb, self.call_model if self.model_in_closures else None, max_states=5000, eq_ok=self.eq_ok,
+                 inline=self.inline, crate=self.crate)
+        sub.model_in_closures = self.model_in_closures
+        sub._apply_depth = getattr(self, "_apply_depth", 0) + 1
+        try:
+            rr = sub.run(env=env2)
+        except RuntimeError:
+            return UNK
+        vals = {v for _, v in rr.returns}
+        if len(vals) == 1 and not rr.panics:
+            v = vals.pop()
+            if v is not None and v[0] != "ref":
+                return v
         return UNK
 
     @staticmethod
